@@ -28,6 +28,7 @@ var ctxTouchers = map[string]string{
 	"(*serverConn).finishRequest":               "callers: called on the handlerDone receipt only",
 	"(*serverConn).dropResponse":                "guard: returns at once when handlerRunning",
 	"(*serverConn).closeBodyStream":             "bodyStream: looks only when Stream.bodyStream is set, which finishRequest alone does",
+	"(*serverConn).dropReported":                "after-stop: takes streams out of handlerDone (their handlers have returned) and is called only where handlerStop has been found closed (the loop is gone)",
 }
 
 func init() {
@@ -173,6 +174,20 @@ func init() {
 				r.undecided("finishRequest call sites", "?", "no call of (*serverConn).finishRequest resolves")
 			}
 
+			// dropReported: every call sits in a select arm that received from handlerStop
+			for _, cs := range p.callsTo("(*serverConn).dropReported") {
+				fn := p.closureLabel(cs.Fn)
+				okStop := false
+				if ce := p.callExprAt(cs.Instr.Pos()); ce != nil {
+					pm := p.pmFor(ce)
+					for n := ast.Node(ce); n != nil; n = pm[n] {
+						if cc, isCC := n.(*ast.CommClause); isCC && cc.Comm != nil && squash(p.text(cc.Comm)) == "<-sc.handlerStop" {
+							okStop = true
+						}
+					}
+				}
+				r.check(okStop, "dropReported called from "+fn+" only once the loop is known to be gone", p.ipos(cs.Instr.(ssa.Instruction)), "inside `case <-sc.handlerStop`", fn+" empties handlerDone without having found handlerStop closed: it takes reports the stream loop is still there to take, and touches their contexts beside it")
+			}
 			// dispatchHandler: nothing after the go statement looks inside the context
 			if fd := p.decl("(*serverConn).dispatchHandler"); fd != nil {
 				goIdx := -1
